@@ -384,10 +384,74 @@ def r28d(ctx, run):
                   "files of the module / working directory are refused") if bad else "")
 
 
+def r28e(ctx, run):
+    """`name` inside a file denotes THAT file's definition: wherever the type checker or the code generator turns the name of a `LocalGlobal` node (or the
+    field of a `file.name` member) into a fully qualified name, the file it pairs the name with is the file of the location whose body the node was
+    fetched from - resolved lexically.  A function that carries `(loc, expr)` for an expression of another file and builds `Fqn { file: self.loc.file(), .. }`
+    resolves an imported file's alias against the file that happens to be compiled."""
+    import prov
+    NOISE = ("elem", "branch", "indexed", "const", "arith")
+
+    def origin(tags):
+        t = {x for x in tags if x not in NOISE and not x.startswith(("field:Some", "field:Ok", "expr:")) and x not in ("m:get", "m:copied", "m:cloned", "m:unwrap", "m:last_mut", "m:pop", "m:clone",
+                                                                                                                         "m:file", "m:wrap", "m:to_naive")}
+        if "m:.loc" in t and "param:self" in t:
+            return "self.loc"
+        ps = sorted(x for x in t if x.startswith("param:") and x != "param:self")
+        if ps:
+            return ps[0]
+        return "/".join(sorted(t))[:60] or "?"
+    n = 0
+    for g in ctx.syn.fns_in("hir_ty/src/globals.rs") + ctx.syn.fns_in("codegen/src/compiler/functions.rs") + ctx.syn.fns_in("codegen/src/compiler/mod.rs"):
+        if g.body is None or g.in_test or "LocalGlobal" not in canon(g.body):
+            continue
+        P = prov.Prov(g)
+
+        def on(node, sc, g=g, P=P):
+            nonlocal n
+            if node.get("k") != "struct" or node["p"].rsplit("::", 1)[-1] not in ("Fqn", "NaiveGlobalLoc"):
+                return
+            fields = {f[0]: f[1] for f in node["f"]}
+            if "file" not in fields or "name" not in fields:
+                return
+            nm = fields["name"]
+            # the name comes out of a LocalGlobal node?
+            base = nm
+            while base.get("k") in ("field", "ref", "un", "paren", "mcall") and base.get("k") != "path":
+                base = base.get("e") or base.get("r") or {}
+            if base.get("k") != "path":
+                return
+            b, _ = sc.lookup(base["p"])
+            if b is None or not b.get("via") or not any(st[0] == "field" and st[1] == "LocalGlobal" for st in b["via"]) or b["src"][0] is None:
+                return
+            scrut, sscope = b["src"]
+            z = scrut
+            while z.get("k") in ("ref", "un", "paren") or (z.get("k") == "mcall" and z["m"] in ("clone", "as_ref", "to_owned", "borrow")):
+                z = z["e"] if z.get("k") != "mcall" else z["r"]
+            home = None
+            if z.get("k") == "index" and z["e"].get("k") == "index" and canon(z["e"]["e"]) == "self.world_bodies":
+                fi = z["e"]["i"]
+                if fi.get("k") == "mcall" and fi["m"] == "file":
+                    home = origin(P.tags(fi["r"], sscope))
+            elif z.get("k") == "index" and canon(z["e"]) == "self.bodies":
+                home = "self.loc"
+            if home is None:
+                return
+            n += 1
+            used = origin(P.tags(fields["file"], sc))
+            run.check(used == home, g.site(node["ln"]), "%s: a bare global name is paired with the file of %s, where its node came from" % (g.qual, home), g.qual, "name-in-own-file", g.file, node["ln"],
+                      "%s pairs the name of a global that is written in the body of %s with the file of %s: `file.ALIAS`, where the other file says `ALIAS :: VALUE;`, looks `VALUE` "
+                      "up in the wrong file (another file's global of that name, or a panic)" % (g.qual, home, used))
+        P.visit(on)
+    if n < 4:
+        raise LookupError("bare global names turned into qualified names with a known home: %d" % n)
+
+
 def rules(ctx):
     return [
         Rule("R28.a", "every import registration is preceded by its complete guard list; resolved paths are the checked ones", 12, r28a),
         Rule("R28.b", "hir::lower runs against the real file system in every non-test caller", 2, r28b),
         Rule("R28.d", "path containment (import outside the module and the working directory) is decided component by component", 1, r28d),
+        Rule("R28.e", "`file.name` refers to that file's own definition: a bare global name is qualified with the file its node was fetched from", 4, r28e),
         Rule("R28.c", "each file is parsed once: seen-test dominates parse in the worklist; stored under its own key; worklist fed and drained", 5, r28c),
     ]
